@@ -35,12 +35,14 @@ def plan(tier, seed):
     if tier == 'quick':
         sh = [{'kind': 'enum', 'L': 4, 'k': k, 'n': 6, 'name': 'enum%d' % k} for k in range(6)]
         sh += [{'kind': 'soup', 'count': 6000, 'name': 'soup%d' % k} for k in range(4)]
+        sh += [{'kind': 'nlargs', 'count': 4000, 'name': 'nlargs'}]
         sh += [{'kind': 'docs', 'vocab': 'default', 'count': 1500, 'depth': 4, 'name': 'ddoc%d' % k} for k in range(3)]
         sh += [{'kind': 'docs', 'vocab': 'custom', 'count': 1500, 'depth': 4, 'name': 'cdoc%d' % k, 'cb': k * 50}
                for k in range(3)]
         return sh
     sh = [{'kind': 'enum', 'L': 5, 'k': k, 'n': 16, 'name': 'enum%d' % k} for k in range(16)]
     sh += [{'kind': 'soup', 'count': 25000, 'name': 'soup%d' % k} for k in range(16)]
+    sh += [{'kind': 'nlargs', 'count': 40000, 'name': 'nlargs%d' % k} for k in range(4)]
     sh += [{'kind': 'docs', 'vocab': 'default', 'count': 5000, 'depth': 4 + k % 3, 'name': 'ddoc%d' % k} for k in range(8)]
     sh += [{'kind': 'docs', 'vocab': 'custom', 'count': 5000, 'depth': 4 + k % 3, 'name': 'cdoc%d' % k, 'cb': k * 200}
            for k in range(8)]
@@ -337,6 +339,12 @@ def run_shard(desc, rec):
             rec.case()
             rec.hist('workload', 'enum')
             check_case({'s': s}, rec)
+    elif kind == 'nlargs':
+        # node-list valued arguments (embellishments, optional markers with full node lists, tack-on macros)
+        for s in work.nlargs_strings(rng, desc['count']):
+            rec.case()
+            rec.hist('workload', 'nodelist-args')
+            check_case({'s': s, 'ctx': {'vocab': 'nlargs'}}, rec)
     elif kind == 'soup':
         for i, s in enumerate(work.soups(rng, desc['count'])):
             rec.case()
